@@ -7,14 +7,14 @@ TARGET = dict(
           "a write granted after all other referencing handles were freed, and (cow_block) a multi-segment handle sharing an area with "
           "another live handle / (cow_pic, cow_sound) a plane re-exported as a block that shared the area with a plane handle; "
           "distinct by hash of configuration, ops and arguments"),
-    assumptions=["per-handle content copies and per-area owner sets kept by the harness (harness/C02_model.h)",
+    assumptions=["allocation-fault mode (15% of the cases): half of the operations run with their 1st..4th allocation refused (engine/faultmalloc.h force-included into the repository sources and inline headers); an operation may then fail, and every handle of the family -- content, size, who may write, owners at the end -- must be as the model says", "per-handle content copies and per-area owner sets kept by the harness (harness/C02_model.h)",
                  "one reference per segment ubuf / picture / sound ubuf on its umem area (ubuf_mem_shared), as anchored",
                  "only ubuf_free releases references for sure; truncate/resize/delete/split are 'possibly releasing'",
                  "argument domains as documented in include/upipe/ubuf_block.h (C03 checks the out-of-range behaviour)",
                  "ASan + exact-size counting umem areas"],
-    execs=[dict(name="cow_block", harness="harness/C02_cow_block.c", repo=LIBUPIPE, engine=MEMFIX, share=1.0),
-           dict(name="cow_pic", harness="harness/C02_cow_pic.c", repo=LIBUPIPE, engine=MEMFIX, share=1.0, case_scale=0.4),
-           dict(name="cow_sound", harness="harness/C02_cow_sound.c", repo=LIBUPIPE, engine=MEMFIX, share=1.0, case_scale=0.4)],
+    execs=[dict(name="cow_block", harness="harness/C02_cow_block.c", repo=LIBUPIPE, engine=MEMFIX, fault_malloc=True, share=1.0),
+           dict(name="cow_pic", harness="harness/C02_cow_pic.c", repo=LIBUPIPE, engine=MEMFIX, fault_malloc=True, share=1.0, case_scale=0.4),
+           dict(name="cow_sound", harness="harness/C02_cow_sound.c", repo=LIBUPIPE, engine=MEMFIX, fault_malloc=True, share=1.0, case_scale=0.4)],
     quick=dict(cases=60000, budget=18), thorough=dict(cases=800000, budget=150),
 )
 META = dict(
